@@ -6,6 +6,7 @@ import (
 	"runtime/debug"
 	"strconv"
 	"strings"
+	"sync"
 	"unicode"
 	"unicode/utf8"
 
@@ -33,7 +34,7 @@ func (p *c12) Rule() string {
 	return fmt.Sprintf("a case = %d strings of valid UTF-8 without NUL (biased to quotes, backslash runs incl. trailing ones, parentheses, '@', newlines, control and non-BMP characters). Each string s (with a partner t) is written as goflow's own quoted literal and evaluated alone, next to other literals/values, as function argument and as index key, through Evaluator.Template and through Evaluator.Expression (no template scanner); it is embedded in body1@(E)body2 for the scanner; and a body text whose every '@' is doubled or followed by neither '(' nor an allowed top-level name is passed through Evaluator.Template. A string is non-trivial when it contains one of \" \\ ( ) @; a case is non-trivial when it holds such a string; distinct = distinct case contents.", c12StringsPerCase)
 }
 func (p *c12) Directed() []string {
-	return []string{"pool", "body-text", "scanner", "known:trailing-backslash"}
+	return []string{"pool", "body-text", "scanner", "known:trailing-backslash", "shared-evaluator"}
 }
 func (p *c12) NumGenerated(tier string) int {
 	if tier == "thorough" {
@@ -108,7 +109,7 @@ func c12Context(key string) *types.XObject {
 
 // string generator -----------------------------------------------------------------------------
 
-var litAlphabet = []string{"\ufffd", "\ufffd", "\ufffe", "\ufdd0", "ſ", "ς", "µ", "K", "ı", "\u200b", "\u200d", "\u0301", `"`, `"`, `\`, `\`, `\\`, `\"`, `"\`, "(", ")", "((", "))", ")(", "@", "@@", "@(", "@contact", "\n", "\r", "\r\n", "\t", "\u0001", "\u001f", "\u007f", "\u0085", "\u2028", "\ufeff", "\u00a0",
+var litAlphabet = []string{`\x41`, `\xA9`, `\x5c`, `C:\xampp\htdocs`, `\u0041`, `\U0001F600`, `\101`, "\ufffd", "\ufffd", "\ufffe", "\ufdd0", "ſ", "ς", "µ", "K", "ı", "\u200b", "\u200d", "\u0301", `"`, `"`, `\`, `\`, `\\`, `\"`, `"\`, "(", ")", "((", "))", ")(", "@", "@@", "@(", "@contact", "\n", "\r", "\r\n", "\t", "\u0001", "\u001f", "\u007f", "\u0085", "\u2028", "\ufeff", "\u00a0",
 	"😀", "𝒳", "\U0010FFFF", "é", "é", "日", "ß", "İ", " ", " ", "a", "b", "Z", "0", "1", "'", "&", ",", "[", "]", "=>", "u005c", "x5c", "n", "t", "u", "x", `\n`, `\t`, `A`, `\x`, `\u`, "{", "}", "%", "#", "$", "`", "<", ">", "=", "+", "-", "."}
 
 func litString(r *fw.Rand) string {
@@ -328,6 +329,8 @@ func (p *c12) Run(c fw.Case) fw.Result {
 		strs = append(strs, gen.LongString(300, 150), gen.LongString(70, 63), "\U0010FFFF", "\u2028", "\ufeff", "á", "__default__", "\\n", "\\u0041", `\"`, `"\"`, `""`, `'`, "`")
 	case "known:trailing-backslash":
 		strs = []string{`a\`, `\`, `\\`, `"\`, `a\\\`, `x y\`, "é\\", `(\`, `)\`, `@\`, `\"\`}
+	case "shared-evaluator":
+		k.sharedEvaluator()
 	case "body-text":
 		k.directedBodies()
 	case "scanner":
@@ -478,6 +481,21 @@ func (k *c12run) checkForm(f form, vals []string) {
 		k.res.Count("violations.expression_level", 1)
 		k.res.Violate("literal|"+level+"|"+class, what, map[string]any{"form": f.name, "values": vals, "expression": expr, "expected": want,
 			"observed": map[string]any{"value": clip(o.text, 300), "error": o.errText, "panicked": o.panicked}})
+	}
+
+	// the same expression as goflow's printer writes it (the other way a string value gets written as a literal: every
+	// rewritten template goes through Expression.String())
+	if directOK {
+		if parsed, err, pn := safeParse(expr); err == nil && pn == nil {
+			printed, ppn := safeString(parsed)
+			k.res.Count("clause.b.printed_literal", 1)
+			if ppn != nil || !k.directOK(printed, accept) {
+				o := evalExpression(k.env, k.ctx, printed)
+				k.res.Count("violations.printed_level", 1)
+				k.res.Violate("literal|printed|"+f.clause, fmt.Sprintf("a quoted literal (%s) that evaluates to its string no longer does after the expression is printed by Expression.String()", f.name),
+					map[string]any{"form": f.name, "values": vals, "expression": expr, "printed": printed, "expected": want, "observed": map[string]any{"value": clip(o.text, 300), "error": o.errText, "panicked": o.panicked}})
+			}
+		}
 	}
 
 	// through Evaluator.Template
@@ -729,5 +747,79 @@ func (k *c12run) directedScanner() {
 			ee := e
 			k.checkScanner(b[0], ee, b[1], func() (string, bool) { return applyRepair(ee, repairBackslash) })
 		}
+	}
+}
+
+// sharedEvaluator: an Evaluator is shared by everything that evaluates (the engine has one for all its sessions), so the
+// clauses have to hold when it is used from several goroutines at once and when an evaluation is started while another is
+// in progress (a function of the context that evaluates a template of its own). Expected outputs are known exactly
+// (literal texts and quoted literals), every goroutine works on its own strings, nothing is shared but the evaluator.
+func (k *c12run) sharedEvaluator() {
+	ev := excellent.NewEvaluator()
+	env := k.env
+	const goroutines, perG = 8, 400
+	type job struct{ tpl, want string }
+	jobs := make([][]job, goroutines)
+	for g := range jobs {
+		for i := 0; i < perG; i++ {
+			body1 := strings.ReplaceAll(litString(k.r), "@", "@@")
+			body2 := strings.ReplaceAll(litString(k.r), "@", "@@")
+			lit := litString(k.r)
+			mark := fmt.Sprintf("<%d.%d>", g, i)
+			jobs[g] = append(jobs[g], job{mark + body1 + "@(" + quote(lit) + ")" + body2 + mark, mark + strings.ReplaceAll(body1, "@@", "@") + lit + strings.ReplaceAll(body2, "@@", "@") + mark})
+		}
+	}
+	type bad struct {
+		g        int
+		j        job
+		got, err string
+	}
+	bads := make([][]bad, goroutines)
+	var wg sync.WaitGroup
+	start := make(chan struct{})
+	for g := 0; g < goroutines; g++ {
+		wg.Add(1)
+		go func(g int) {
+			defer wg.Done()
+			ctx := c12Context("k")
+			<-start
+			for _, j := range jobs[g] {
+				out, _, err := ev.Template(env, ctx, j.tpl, nil)
+				if err != nil || out != j.want {
+					e := ""
+					if err != nil {
+						e = err.Error()
+					}
+					bads[g] = append(bads[g], bad{g, j, out, e})
+				}
+			}
+		}(g)
+	}
+	close(start)
+	wg.Wait()
+	k.res.Count("clause.shared_evaluator.templates", int64(goroutines*perG))
+	for g := range bads {
+		for _, b := range bads[g] {
+			// the same template alone
+			alone, _, aerr := excellent.NewEvaluator().Template(env, c12Context("k"), b.j.tpl, nil)
+			if aerr == nil && alone == b.j.want {
+				k.res.Violate("shared-evaluator|concurrent-output-differs", "a template evaluated on an Evaluator that other goroutines use at the same time gave another text than it gives alone",
+					map[string]any{"template": clip(b.j.tpl, 400), "expected": clip(b.j.want, 400), "observed": clip(b.got, 400), "error": b.err, "goroutines": goroutines})
+				return
+			}
+			k.res.Count("shared_evaluator.differs_also_alone(judged_by_the_other_clauses)", 1)
+		}
+	}
+	// nested: a function of the context evaluates a template on the same evaluator while the outer template is being evaluated
+	inner := types.NewXFunction("inner", func(env envs.Environment, args ...types.XValue) types.XValue {
+		out, _, _ := ev.Template(env, c12Context("k"), "inner-@@-text @(\"in\" & \"ner\") end", nil)
+		return types.NewXText(out)
+	})
+	ctx := types.NewXObject(map[string]types.XValue{"inner": inner, "foo": types.NewXText("FOO")})
+	k.res.Count("clause.shared_evaluator.nested", 1)
+	out, _, err := ev.Template(env, ctx, "outer-start @foo [@(inner())] @(\"lit\") outer-end", nil)
+	if want := "outer-start FOO [inner-@-text inner end] lit outer-end"; err != nil || out != want {
+		k.res.Violate("shared-evaluator|nested-output-differs", "a template whose evaluation starts another evaluation on the same Evaluator lost or mixed up its literal text",
+			map[string]any{"expected": want, "observed": out, "error": fmt.Sprint(err)})
 	}
 }
